@@ -553,6 +553,11 @@ func indexOf(sets []*setModel, sm *setModel) int {
 
 func RunC16(env *sim.Env) {
 	t := env.Tape
+	if t.Choose(8) == 7 {
+		// one run in eight is a concurrent history (c16conc.go)
+		runC16Concurrent(env)
+		return
+	}
 	c := &c16{env: env, t: t, files: map[string]*fileModel{}, vers: map[string]int{}}
 	c.exts = extLists[t.Choose(len(extLists))]
 	c.mem = jet.NewInMemLoader()
